@@ -1,14 +1,58 @@
-import QrlModel.Spec.XmssRef
+import QrlModel.Proofs.XmssRefEq
 import QrlModel.Props.C01
+import QrlModel.Proofs.Seg.H12
 /-! # C06 — XMSS keys and signatures are the fixed QRL-XMSS function of their inputs
 
-`Spec/XmssRef.lean` is the plain full-Merkle-tree reference (no traversal state). The executable
-reference is compared byte for byte with the library by the correspondence run (`xs.pk`, `xs.sign`). -/
+`Spec/XmssRef.lean` is the plain full-Merkle-tree reference: seed → SHAKE256(seed, 96) → SK_SEED ‖ SK_PRF ‖
+PUB_SEED, all 2^h leaves, the whole tree level by level, signature i = idx ‖ PRF(SK_PRF, idx) ‖ WOTS ‖ true
+path. `C06_height`: for a height whose label-level whole-life check holds (proved for 4, 6, 8, 10), for every
+seed, hash function (32-byte output), descriptor of that height, index, message **and every history that led
+to that index**, the model of the library returns byte for byte the reference public key and the reference
+signature. Heights 12..30 are `C06_partial` (same lemma, the per-height check missing); there and for the
+tie between model and Go code the correspondence run compares the real library with the executable
+reference (`xs.pk`, `xs.sign`; all three hash functions; the suite's zero-seed known answers). -/
 namespace Qrl.Xmss.C06
-open Qrl.XmssRef
+open Qrl.XmssRef Qrl.BdsLabel Qrl.Xmss.C02 Qrl.Xmss.C08 Qrl.Xmss.C01
 
 section
 variable (hashOf : Nat → Bytes → Bytes) (shake256 : Bytes → Nat → Bytes)
+
+def C06Statement (h : Nat) : Prop :=
+  ∀ (_ : ∀ hf x, (hashOf hf x).length = 32) (seed : Bytes) (_ : (shake256 seed 96).length = 96)
+    (d : Desc) (_ : d.height = h) (k0 : Key) (_ : initializeTree hashOf shake256 d seed = .ok k0),
+    (refKeyD hashOf shake256 seed d).pk = k0.pk ∧
+    ∀ (ops : List Op) (_ : ∀ op ∈ ops, opOK op) (msg : Bytes) (k' : Key) (sig : Bytes),
+      (specRun h 0 ops).1 < 2 ^ h →
+      sign hashOf (run hashOf k0 ops).1 msg = .ok (k', sig) →
+      refSign hashOf (refKeyD hashOf shake256 seed d) (specRun h 0 ops).1 msg = .ok sig
+
+theorem C06_height (h : Nat) (hc : TraversalCorrect h) (h4 : 4 ≤ h) (h30 : h ≤ 30) : C06Statement hashOf shake256 h := by
+  intro hlen seed hs d hh k0 hk
+  have hrootlen : ((Bds.treeHashSetup (opsFor hashOf d.hashFn ((shake256 seed 96).take 32) (((shake256 seed 96).drop 64).take 32)) d.height).2).length = 32 := by
+    have := (BdsRel.traversal_transfer (treeOps (hashOf d.hashFn) (((shake256 seed 96).drop 64).take 32)
+      (fun j => genLeafWOTS (hashOf d.hashFn) wp16 ((shake256 seed 96).take 32) (((shake256 seed 96).drop 64).take 32) j)) h hc).1
+    rw [hh]
+    show (Bds.treeHashSetup (treeOps _ _ _) h).2.length = 32
+    rw [this]
+    exact tree_len _ (hlen _) _ _ (fun j => genLeafWOTS_len _ (hlen _) _ _ _ _) _ _
+  have hg := generated_of_init hashOf shake256 d seed k0 hs hk hrootlen
+  obtain ⟨hpk, hsig⟩ := lib_eq_ref hashOf shake256 h hc hlen seed hs d hh h4 h30 k0 hg
+  refine ⟨hpk, fun ops hops msg k' sig hleft hsign => ?_⟩
+  have hk0h : k0.h = h := by rw [hg.h, hh]
+  have hfresh : keyAt hashOf k0 0 = k0 := fresh_is_keyAt0 hashOf k0 hg.skz
+  have hhist := history_state hashOf hlen k0 (by omega) (by omega) ops 0 (Nat.zero_le _) hops
+  rw [hfresh, hk0h] at hhist
+  rw [hhist] at hsign
+  exact hsig _ hleft msg k' sig hsign
+
+theorem C06_h4 : C06Statement hashOf shake256 4 := C06_height hashOf shake256 4 (traversal_of_checkAll _ bds_h4) (by decide) (by decide)
+theorem C06_h6 : C06Statement hashOf shake256 6 := C06_height hashOf shake256 6 (traversal_of_checkAll _ bds_h6) (by decide) (by decide)
+theorem C06_h8 : C06Statement hashOf shake256 8 := C06_height hashOf shake256 8 (traversal_of_checkAll _ bds_h8) (by decide) (by decide)
+theorem C06_h10 : C06Statement hashOf shake256 10 := C06_height hashOf shake256 10 (traversal_of_checkAll _ bds_h10) (by decide) (by decide)
+theorem C06_h12 : C06Statement hashOf shake256 12 := C06_height hashOf shake256 12 Seg12.traversal (by decide) (by decide)
+
+theorem C06_partial (h : Nat) (h4 : 4 ≤ h) (h30 : h ≤ 30) (hc : TraversalCorrect h) : C06Statement hashOf shake256 h :=
+  C06_height hashOf shake256 h hc h4 h30
 
 /-- signature layout idx ‖ R ‖ WOTS ‖ auth: the first four bytes of a reference signature are the index -/
 theorem ref_sig_index (k : RefKey) (idx : Nat) (msg sig : Bytes) (hi : idx < 4294967296)
@@ -25,13 +69,6 @@ theorem ref_sig_index (k : RefKey) (idx : Nat) (msg sig : Bytes) (hi : idx < 429
 
 /-- `Verify` is `VerifyWithCustomWOTSParamW(w = 16)` -/
 theorem verify_eq_w16 (msg sig epk : Bytes) : verify hashOf msg sig epk = verifyW hashOf msg sig epk 16 := rfl
-
-/-- the seed expansion: SK_SEED, SK_PRF, PUB_SEED are bytes 0..32, 32..64, 64..96 of SHAKE256(seed, 96), in
-both the library model and the reference -/
-theorem seed_expansion (seed : Bytes) (h hf : Nat) :
-    (refKey hashOf shake256 seed h hf).skSeed = (shake256 seed 96).take 32 ∧
-    (refKey hashOf shake256 seed h hf).skPRF = ((shake256 seed 96).drop 32).take 32 ∧
-    (refKey hashOf shake256 seed h hf).pubSeed = ((shake256 seed 96).drop 64).take 32 := ⟨rfl, rfl, rfl⟩
 
 end
 end Qrl.Xmss.C06
